@@ -78,6 +78,10 @@ def render(o):
         if len(lines) != blk["hline"]:
             raise RuntimeError("layout: heading written at line %d, Outline.tla says %d" % (len(lines), blk["hline"]))
         for row in blk["rows"]:
+            if row["gap"] == 1:
+                lines.append(u"      # -- a comment line inside the examples table")
+            elif row["gap"] == 2:
+                lines.append(u"")
             lines.append(table_line([txt(c) for c in row["cells"]], u"      "))
             if len(lines) != row["line"]:
                 raise RuntimeError("layout: row written at line %d, Outline.tla says %d" % (len(lines), row["line"]))
